@@ -323,6 +323,8 @@ fn do_cert(ctx: &mut Ctx, env: &Env, rng: &mut Rng, which: CertKind) {
     let so = gen::rsync(rng, false, so_ext);
     let notify = if rng.bool() { Some(gen::https(rng)) } else { None };
     let aki_on_ta = rng.bool();
+    // sometimes the subject key is not given to `TbsCert::new` but set afterwards
+    let key_via_setter = !router && rng.chance(1, 4);
 
     let (subject_key, signing_key) = match which {
         CertKind::Ta => (env.pool.info(K_SUBJECT), K_SUBJECT),
@@ -361,11 +363,15 @@ fn do_cert(ctx: &mut Ctx, env: &Env, rng: &mut Rng, which: CertKind) {
             serial,
             issuer_name,
             win.validity,
-            subject.clone(),
-            subject_key.clone(),
+            // an explicit subject name, so that the name does not depend on which key `new` saw
+            if key_via_setter { Some(subject.clone().unwrap_or_else(|| subject_key.to_subject_name())) } else { subject.clone() },
+            if key_via_setter { env.pool.info((K_ISSUER + 1) % POOL) } else { subject_key.clone() },
             if matches!(which, CertKind::Ta | CertKind::Ca) { KeyUsage::Ca } else { KeyUsage::Ee },
             overclaim,
         );
+        if key_via_setter {
+            tbs.set_subject_public_key(subject_key.clone());
+        }
         match which {
             CertKind::Ta => {
                 tbs.set_basic_ca(Some(true));
@@ -803,7 +809,7 @@ fn do_roa(ctx: &mut Ctx, env: &Env, rng: &mut Rng) {
     }
     let around_now = rng.bool();
     let so = sigobj_inputs(env, rng, "roa", around_now);
-    let api = rng.below(3);
+    let api = rng.below(4);
     let pj = |v: &[(u128, u8, Option<u8>)], v4: bool| -> Vec<Value> {
         v.iter()
             .map(|&(a, l, m)| {
@@ -838,6 +844,20 @@ fn do_roa(ctx: &mut Ctx, env: &Env, rng: &mut Rng) {
                 }
                 RoaBuilder::with_addresses(Asn::from_u32(asn), b4, b6)
             }
+            3 => {
+                // the remaining entry points: push_v4, push_v6_addr and the bulk IPv6 one
+                let mut b = RoaBuilder::new(Asn::from_u32(asn));
+                for &(a, l, m) in &v4 {
+                    b.push_v4(RoaIpAddress::new(Prefix::new(a, l), m));
+                }
+                let half = v6.len() / 2;
+                for &(a, l, m) in &v6[..half] {
+                    b.push_v6_addr(Ipv6Addr::from(a), l, m);
+                }
+                let a6: Vec<RoaIpAddress> = v6[half..].iter().map(|&(a, l, m)| RoaIpAddress::new(Prefix::new(a, l), m)).collect();
+                b.extend_v6_from_slice(&a6);
+                b
+            }
             _ => {
                 let mut b = RoaBuilder::new(Asn::from_u32(0));
                 b.set_as_id(Asn::from_u32(asn));
@@ -860,7 +880,7 @@ fn do_roa(ctx: &mut Ctx, env: &Env, rng: &mut Rng) {
         fine.push(("as_id", if asn == 0 { "0" } else if asn == u32::MAX { "max" } else { "other" }));
         fine.push(("v4-maxlen", &list_class[0]));
         fine.push(("v6-maxlen", &list_class[1]));
-        fine.push(("api", ["push_addr", "with_addresses", "extend_from_slice"][api as usize]));
+        fine.push(("api", ["push_addr", "with_addresses", "extend_from_slice", "push_v4+push_v6_addr+extend_v6"][api as usize]));
         fine.push(("validator", if around_now { "Roa::process" } else { "SignedObject::validate_at" }));
         classes(ctx, kind, &[size_class(v4.len()), size_class(v6.len()), &so.coarse], &fine);
     }
